@@ -26,7 +26,13 @@ package conf
 //        succeeds) on a file conf<ext> holding the rendering of <doc> in the format of the extension
 //   filldef                                    => <res>   conf.FillDefault on a fresh value
 //
-// type syntax:  b i8 i16 i32 i64 i u8 u16 u32 u64 u f32 f64 s | *T | @T (slice) | %T (map[string]T)
+//   every decoding op ends with AL=- | AL=#<n>:<path>~<path>  (the n-th decoder call of the op produced a value in which
+//        two distinct entries hold the SAME pointer / slice backing array / map: entries must be freshly allocated)
+//   fload api Bytes: conf.LoadFrom{Json,Yaml,Toml}Bytes chosen by the extension (no options exist for them); the floads
+//        of a section form ONE sequence of loads in one process with alternating option sets
+//
+// type syntax:  b i8 i16 i32 i64 i u8 u16 u32 u64 u f32 f64 s | ni ni16 nu32 nf nf32 (named number types)
+//               | *T (any T: **T, *@T, *%T too) | @T (slice) | %T (map[string]T)
 //               | {Name:key:flags=T;...}   flags: o optional, e embedded, i inherit, s string, - none, then
 //                 !d<default> !v<env var> !r<range> !p<opt>/<opt>..
 // doc syntax:   restricted JSON without blanks (strings over [A-Za-z0-9_.:-], no escapes)
@@ -205,7 +211,26 @@ func (p *c17Parser) ty() *c17Ty {
 	return &c17Ty{kind: name}
 }
 
+// named number types (reflect cannot create them at run time)
+type (
+	c17NI   int
+	c17NI16 int16
+	c17NU32 uint32
+	c17NF   float64
+	c17NF32 float32
+)
+
+// c17Base: the unnamed kind behind a prim name (ni -> i, nf32 -> f32).
+func c17Base(kind string) string {
+	if len(kind) > 1 && kind[0] == 'n' {
+		return kind[1:]
+	}
+	return kind
+}
+
 var c17Prims = map[string]reflect.Type{
+	"ni": reflect.TypeOf(c17NI(0)), "ni16": reflect.TypeOf(c17NI16(0)), "nu32": reflect.TypeOf(c17NU32(0)),
+	"nf": reflect.TypeOf(c17NF(0)), "nf32": reflect.TypeOf(c17NF32(0)),
 	"b": reflect.TypeOf(false), "s": reflect.TypeOf(""),
 	"i8": reflect.TypeOf(int8(0)), "i16": reflect.TypeOf(int16(0)), "i32": reflect.TypeOf(int32(0)),
 	"i64": reflect.TypeOf(int64(0)), "i": reflect.TypeOf(int(0)),
@@ -677,8 +702,85 @@ func c17DumpVal(v reflect.Value, b *strings.Builder) {
 	}
 }
 
+// c17FindAlias walks a decoded value and reports the first two DISTINCT positions that hold the same non-nil pointer,
+// the same slice backing array or the same map ("" = none).  Pointers to zero-size values are skipped (the runtime
+// gives them all one address).  Addresses are compared together with the static type.
+func c17FindAlias(root reflect.Value) string {
+	seen := map[string]string{}
+	found := ""
+	note := func(v reflect.Value, tag, path string) {
+		key := fmt.Sprintf("%x/%s/%s", v.Pointer(), tag, v.Type())
+		if p, ok := seen[key]; ok {
+			if found == "" {
+				found = p + "~" + path
+			}
+			return
+		}
+		seen[key] = path
+	}
+	var walk func(v reflect.Value, path string)
+	walk = func(v reflect.Value, path string) {
+		if found != "" {
+			return
+		}
+		switch v.Kind() {
+		case reflect.Pointer:
+			if v.IsNil() {
+				return
+			}
+			if v.Type().Elem().Size() > 0 {
+				note(v, "p", path)
+			}
+			walk(v.Elem(), path+"*")
+		case reflect.Slice:
+			if v.IsNil() || v.Len() == 0 {
+				return
+			}
+			if v.Type().Elem().Size() > 0 {
+				note(v, "s", path)
+			}
+			for i := 0; i < v.Len(); i++ {
+				walk(v.Index(i), path+"["+strconv.Itoa(i)+"]")
+			}
+		case reflect.Map:
+			if v.IsNil() {
+				return
+			}
+			note(v, "m", path)
+			keys := v.MapKeys()
+			sort.Slice(keys, func(i, j int) bool { return keys[i].String() < keys[j].String() })
+			for _, k := range keys {
+				walk(v.MapIndex(k), path+"["+k.String()+"]")
+			}
+		case reflect.Struct:
+			for i := 0; i < v.NumField(); i++ {
+				walk(v.Field(i), path+"."+v.Type().Field(i).Name)
+			}
+		}
+	}
+	walk(root, "")
+	return found
+}
+
+// the decoder calls of the op being executed: how many so far, and the first aliasing found
+var (
+	c17DecodeCalls int
+	c17AliasFound  string
+)
+
+// c17AliasTok ends an op: AL=- or AL=#<decoder call>:<path>~<path>, and resets the per-op state.
+func c17AliasTok() string {
+	out := "AL=-"
+	if c17AliasFound != "" {
+		out = "AL=" + c17AliasFound
+	}
+	c17DecodeCalls, c17AliasFound = 0, ""
+	return out
+}
+
 // c17Decode runs one decoder into a fresh value of type rt; a panic is caught here so that the other decoders still run.
 func c17Decode(rt reflect.Type, f func(ptr any) error) (out string) {
+	c17DecodeCalls++
 	defer func() {
 		if p := recover(); p != nil {
 			out = "panic"
@@ -687,6 +789,9 @@ func c17Decode(rt reflect.Type, f func(ptr any) error) (out string) {
 	ptr := reflect.New(rt)
 	if err := f(ptr.Interface()); err != nil {
 		return "err"
+	}
+	if a := c17FindAlias(ptr.Elem()); a != "" && c17AliasFound == "" {
+		c17AliasFound = "#" + strconv.Itoa(c17DecodeCalls) + ":" + strings.ReplaceAll(a, " ", "_")
 	}
 	var b strings.Builder
 	b.WriteString("ok:")
@@ -732,12 +837,33 @@ type c17Gen struct {
 	ext   bool            // tag options default= options= range= env= inherit string may be generated
 	used  map[string]bool // lower-cased keys used in the struct being built (flattened through embedding)
 	mode  c17Mode
+	// ptrs: pointer types everywhere a value type may stand (*T, **T for every T incl. slices and maps; map[string]*T,
+	// []*T, map[string][]*T; pointers to named number types) and documents whose slices / maps hold 2-3 DISTINCT
+	// entries, so that aliasing between entries shows
+	ptrs bool
+}
+
+// ptrWrap: in ptrs mode any value type may become *T or **T.
+func (g *c17Gen) ptrWrap(t *c17Ty) *c17Ty {
+	if !g.ptrs {
+		return t
+	}
+	switch g.r.Intn(7) {
+	case 0, 1:
+		return &c17Ty{kind: "*", elem: t}
+	case 2:
+		return &c17Ty{kind: "*", elem: &c17Ty{kind: "*", elem: t}}
+	}
+	return t
 }
 
 var c17DotGroups = []string{"grp", "Sec", "opt"}
 
 func (g *c17Gen) prim() *c17Ty {
 	r := g.r
+	if g.ptrs && r.Chance(1, 4) {
+		return &c17Ty{kind: r.PickS("ni", "ni16", "nu32", "nf", "nf32")}
+	}
 	switch r.Intn(10) {
 	case 0, 1:
 		return &c17Ty{kind: "s"}
@@ -754,14 +880,21 @@ func (g *c17Gen) prim() *c17Ty {
 	}
 }
 
-// elemTy: element of a slice / map. No uint8 slices ([]byte is base64 in both decoders), no pointers to
-// slices / maps, no pointer-to-primitive map elements (outside the modelled family).
+// elemTy: element of a slice / map. No uint8 slices ([]byte is base64 in both decoders); pointers to slices / maps
+// and pointers to pointers only in ptrs mode (outside the modelled family, monitored only).
 func (g *c17Gen) elemTy(depth int, inMap bool) *c17Ty {
+	return g.ptrWrap(g.elemTy0(depth, inMap))
+}
+
+func (g *c17Gen) elemTy0(depth int, inMap bool) *c17Ty {
 	r := g.r
 	if depth <= 0 {
 		t := g.prim()
 		for t.kind == "u8" {
 			t = g.prim()
+		}
+		if r.Chance(1, 4) {
+			return &c17Ty{kind: "*", elem: t}
 		}
 		return t
 	}
@@ -775,13 +908,11 @@ func (g *c17Gen) elemTy(depth int, inMap bool) *c17Ty {
 	case 3:
 		return &c17Ty{kind: "%", elem: g.elemTy(depth-1, true)}
 	case 4:
-		if !inMap {
-			t := g.prim()
-			for t.kind == "u8" {
-				t = g.prim()
-			}
-			return &c17Ty{kind: "*", elem: t}
+		t := g.prim()
+		for t.kind == "u8" {
+			t = g.prim()
 		}
+		return &c17Ty{kind: "*", elem: t}
 	}
 	t := g.prim()
 	for t.kind == "u8" {
@@ -791,6 +922,10 @@ func (g *c17Gen) elemTy(depth int, inMap bool) *c17Ty {
 }
 
 func (g *c17Gen) fieldTy(depth int) *c17Ty {
+	return g.ptrWrap(g.fieldTy0(depth))
+}
+
+func (g *c17Gen) fieldTy0(depth int) *c17Ty {
 	r := g.r
 	if depth <= 0 {
 		return g.prim()
@@ -901,7 +1036,7 @@ func (g *c17Gen) extOptions(f *c17Field) {
 		}
 		return
 	}
-	k := base.kind
+	k := c17Base(base.kind)
 	numeric := k != "s" && k != "b"
 	if r.Chance(1, 3) {
 		switch {
@@ -952,6 +1087,7 @@ var c17FloatPool = []string{"0.5", "1.5", "-2.25", "3.125", "0.1", "2.75", "100.
 
 func (g *c17Gen) scalarFor(kind string) *c17Doc {
 	r := g.r
+	kind = c17Base(kind)
 	switch {
 	case kind == "s":
 		return &c17Doc{kind: "str", lit: c17Words[r.Intn(len(c17Words))]}
@@ -1008,17 +1144,23 @@ func (g *c17Gen) docFor(t *c17Ty, mut int, nulls bool) *c17Doc {
 		return g.docFor(t.elem, mut, nulls)
 	case "@":
 		n := r.Pick(0, 1, 1, 2, 3)
+		if g.ptrs {
+			n = r.Pick(2, 2, 3, 3, 1, 0)
+		}
 		d := &c17Doc{kind: "arr"}
 		for i := 0; i < n; i++ {
 			if nulls && r.Chance(1, 6) {
 				d.arr = append(d.arr, &c17Doc{kind: "null"})
 			} else {
-				d.arr = append(d.arr, g.docFor(t.elem, mut, nulls))
+				d.arr = append(d.arr, g.distinctDoc(t.elem, mut, nulls, d.arr))
 			}
 		}
 		return d
 	case "%":
 		n := r.Pick(0, 1, 2, 2, 3)
+		if g.ptrs {
+			n = r.Pick(2, 3, 3, 4, 1, 0)
+		}
 		d := &c17Doc{kind: "obj"}
 		seen := map[string]bool{}
 		el := t.elem
@@ -1039,7 +1181,7 @@ func (g *c17Gen) docFor(t *c17Ty, mut int, nulls bool) *c17Doc {
 			}
 			seen[strings.ToLower(k)] = true
 			d.keys = append(d.keys, k)
-			d.vals = append(d.vals, g.docFor(t.elem, mut, nulls))
+			d.vals = append(d.vals, g.distinctDoc(t.elem, mut, nulls, d.vals))
 		}
 		return d
 	case "{":
@@ -1060,6 +1202,28 @@ func (g *c17Gen) docFor(t *c17Ty, mut int, nulls bool) *c17Doc {
 		return d
 	}
 	return g.scalarFor(t.kind)
+}
+
+// distinctDoc: a document for an element type; in ptrs mode it differs from the siblings generated so far (a few tries),
+// so that two entries sharing one cell cannot print alike.
+func (g *c17Gen) distinctDoc(t *c17Ty, mut int, nulls bool, sibs []*c17Doc) *c17Doc {
+	d := g.docFor(t, mut, nulls)
+	if !g.ptrs {
+		return d
+	}
+	for tries := 0; tries < 6; tries++ {
+		clash := false
+		for _, s := range sibs {
+			if s.enc() == d.enc() {
+				clash = true
+			}
+		}
+		if !clash {
+			break
+		}
+		d = g.docFor(t, mut, nulls)
+	}
+	return d
 }
 
 func (g *c17Gen) structEntries(t *c17Ty, d *c17Doc, mut int, nulls bool) {
@@ -1362,12 +1526,55 @@ func (g *c17Gen) dollar(d *c17Doc) {
 
 func c17GenSections(r *verifh.Rng) []verifh.Section {
 	var secs []verifh.Section
-	nsec := verifh.Scale(160, 2500)
+	nsec := verifh.Scale(200, 1300)
 	for i := 0; i < nsec; i++ {
 		g := &c17Gen{r: r.Fork(), plain: i%2 == 0, dots: i%3 == 1, ext: i%4 == 1 || i%4 == 3}
 		g.mode.dotLiteral = 15
+		if i%8 == 3 || i%8 == 6 || i%8 == 2 {
+			// pointer element types everywhere (plain and tagged sections alike); no tag options beyond optional
+			g.ptrs, g.ext = true, false
+		}
 		depth := g.r.Pick(0, 1, 1, 2, 2, 3)
+		if g.ptrs {
+			depth = g.r.Pick(1, 1, 2, 2, 3)
+		}
 		t := g.structTy(depth, false)
+		if i%8 == 2 {
+			// directed shapes: containers of pointers to numbers (incl. named number types), pointers to pointers,
+			// pointers to containers, containers of pointers to structs
+			num := func() *c17Ty {
+				return &c17Ty{kind: g.r.PickS("i", "f64", "i8", "u16", "f32", "ni", "nf", "ni16", "nu32", "nf32", "i64", "u")}
+			}
+			p := func(t *c17Ty) *c17Ty { return &c17Ty{kind: "*", elem: t} }
+			sl := func(t *c17Ty) *c17Ty { return &c17Ty{kind: "@", elem: t} }
+			mp := func(t *c17Ty) *c17Ty { return &c17Ty{kind: "%", elem: t} }
+			st := func() *c17Ty { return g.structTy(g.r.Pick(0, 0, 1), false) }
+			shapes := []func() *c17Ty{
+				func() *c17Ty { return mp(p(num())) },
+				func() *c17Ty { return sl(p(num())) },
+				func() *c17Ty { return p(p(num())) },
+				func() *c17Ty { return mp(sl(p(num()))) },
+				func() *c17Ty { return mp(p(p(num()))) },
+				func() *c17Ty { return sl(p(p(num()))) },
+				func() *c17Ty { return p(sl(num())) },
+				func() *c17Ty { return p(mp(num())) },
+				func() *c17Ty { return mp(p(st())) },
+				func() *c17Ty { return sl(p(st())) },
+				func() *c17Ty { return p(p(st())) },
+				func() *c17Ty { return mp(mp(p(num()))) },
+				func() *c17Ty { return sl(sl(p(num()))) },
+				func() *c17Ty { return mp(p(&c17Ty{kind: g.r.PickS("s", "b")})) },
+				func() *c17Ty { return sl(mp(p(num()))) },
+				func() *c17Ty { return p(mp(p(num()))) },
+			}
+			t = &c17Ty{kind: "{"}
+			names := []string{"Items", "Meta", "Limit"}
+			nf := g.r.Range(1, 3)
+			for q := 0; q < nf; q++ {
+				t.fields = append(t.fields, c17Field{name: names[q], key: g.r.PickS("", strings.ToLower(names[q]), names[q]),
+					ty: shapes[g.r.Intn(len(shapes))]()})
+			}
+		}
 		if i%8 == 7 {
 			// directed shape: a map that is not itself a struct field (element of a slice / of another map) over a struct
 			inner := g.structTy(g.r.Pick(0, 0, 1), false)
@@ -1418,15 +1625,35 @@ func c17GenSections(r *verifh.Rng) []verifh.Section {
 				ops = append(ops, fmt.Sprintf("cload %d %s", g.r.Intn(16), d.enc()))
 			}
 		}
-		// the file-level API
-		for j := 0; j < 2; j++ {
+		// the file-level API: a SEQUENCE of loads in one process with different option sets (UseEnv on / off
+		// alternating, every API incl. the LoadFrom*Bytes loaders that take no options): an option of one call
+		// must not reach a later call
+		nfl := g.r.Range(2, 4)
+		if i%5 == 0 {
+			nfl = g.r.Range(5, 9)
+		}
+		envOn := g.r.Bool()
+		for j := 0; j < nfl; j++ {
 			d := g.docFor(t, g.r.Pick(0, 0, 0, 10), false)
 			for d.kind != "obj" {
 				d = g.docFor(t, 0, false)
 			}
 			g.dollar(d)
-			ops = append(ops, fmt.Sprintf("fload %s %d %s %d %s", g.r.PickS(c17Exts...), g.r.Intn(2),
-				g.r.PickS("Load", "LoadConfig", "MustLoad"), g.r.Intn(16), d.enc()))
+			api := g.r.PickS("Load", "LoadConfig", "MustLoad", "Load", "Bytes")
+			env := 0
+			if api != "Bytes" {
+				if g.r.Chance(4, 5) {
+					envOn = !envOn
+				}
+				if envOn {
+					env = 1
+				}
+			}
+			ext := g.r.PickS(c17Exts...)
+			if api == "Bytes" {
+				ext = g.r.PickS(".json", ".yaml", ".toml")
+			}
+			ops = append(ops, fmt.Sprintf("fload %s %d %s %d %s", ext, env, api, g.r.Intn(16), d.enc()))
 		}
 		if g.r.Chance(1, 2) {
 			ops = append(ops, "filldef")
@@ -1449,6 +1676,17 @@ func c17GenSections(r *verifh.Rng) []verifh.Section {
 				d = g.docFor(t, 0, nulls)
 			}
 			ops = append(ops, fmt.Sprintf("munm %d %d %s", bits, g.r.Intn(16), d.enc()))
+		}
+		// the same call again, later in the same process, after calls with other option sets: the result must be
+		// the same (options, caches and defaults of earlier calls must not reach a later one)
+		var again []string
+		for _, o := range ops {
+			if strings.HasPrefix(o, "munm 0 ") || strings.HasPrefix(o, "fload ") || strings.HasPrefix(o, "load ") {
+				again = append(again, o)
+			}
+		}
+		for q := 0; q < 3 && len(again) > 0; q++ {
+			ops = append(ops, again[g.r.Intn(len(again))])
 		}
 		secs = append(secs, verifh.Section{Cfg: "kind=load", Ops: ops})
 	}
@@ -1548,6 +1786,7 @@ func TestVerifC17(t *testing.T) {
 				}
 				out = append(out, "U="+c17Decode(rt, func(v any) error { return mapping.UnmarshalJsonBytes([]byte(js), v) }))
 				out = append(out, "S="+c17Decode(rt, func(v any) error { return json.Unmarshal([]byte(js), v) }))
+				out = append(out, c17AliasTok())
 				return strings.Join(out, " ")
 			case "munm":
 				if len(op) != 4 {
@@ -1592,6 +1831,7 @@ func TestVerifC17(t *testing.T) {
 				if bits == 0 {
 					out = append(out, "S="+c17Decode(rt, func(v any) error { return json.Unmarshal([]byte(js), v) }))
 				}
+				out = append(out, c17AliasTok())
 				return strings.Join(out, " ")
 			case "cload":
 				if len(op) != 3 {
@@ -1629,6 +1869,7 @@ func TestVerifC17(t *testing.T) {
 				} else {
 					out = append(out, "CT=skip")
 				}
+				out = append(out, c17AliasTok())
 				return strings.Join(out, " ")
 			case "f32":
 				if len(op) != 2 {
@@ -1638,12 +1879,12 @@ func TestVerifC17(t *testing.T) {
 				js := `{"x":` + op[1] + `}`
 				return "U=" + c17Decode(ft, func(v any) error { return mapping.UnmarshalJsonBytes([]byte(js), v) }) +
 					" L=" + c17Decode(ft, func(v any) error { return LoadFromJsonBytes([]byte(js), v) }) +
-					" S=" + c17Decode(ft, func(v any) error { return json.Unmarshal([]byte(js), v) })
+					" S=" + c17Decode(ft, func(v any) error { return json.Unmarshal([]byte(js), v) }) + " " + c17AliasTok()
 			case "filldef":
 				if rt == nil {
 					return "no-type"
 				}
-				return c17Decode(rt, func(v any) error { return FillDefault(v) })
+				return c17Decode(rt, func(v any) error { return FillDefault(v) }) + " " + c17AliasTok()
 			case "fload":
 				if len(op) != 6 {
 					return "bad-op"
@@ -1662,7 +1903,7 @@ func TestVerifC17(t *testing.T) {
 				case ".toml":
 					ts, tok := d.renderTOML(style)
 					if !tok {
-						return "skip"
+						return "skip " + c17AliasTok()
 					}
 					content = ts
 				case ".yaml", ".yml":
@@ -1680,8 +1921,34 @@ func TestVerifC17(t *testing.T) {
 					opts = append(opts, UseEnv())
 				}
 				load := Load
-				if api == "LoadConfig" {
+				switch api {
+				case "LoadConfig":
 					load = LoadConfig
+				case "Bytes":
+					// the loaders without options, on the same content
+					if useEnv {
+						return "bad-op"
+					}
+					load = func(_ string, v any, _ ...Option) error {
+						switch strings.ToLower(ext) {
+						case ".toml":
+							return LoadFromTomlBytes([]byte(content), v)
+						case ".yaml", ".yml":
+							if style&1 != 0 {
+								return LoadConfigFromYamlBytes([]byte(content), v) // deprecated wrapper
+							}
+							return LoadFromYamlBytes([]byte(content), v)
+						case ".json":
+							if style&1 != 0 {
+								return LoadConfigFromJsonBytes([]byte(content), v) // deprecated wrapper
+							}
+							return LoadFromJsonBytes([]byte(content), v)
+						}
+						return fmt.Errorf("no loader")
+					}
+				case "Load", "MustLoad":
+				default:
+					return "bad-op"
 				}
 				res := c17Decode(rt, func(v any) error { return load(file, v, opts...) })
 				if api == "MustLoad" && strings.HasPrefix(res, "ok:") {
@@ -1693,7 +1960,7 @@ func TestVerifC17(t *testing.T) {
 						res += " M=diff"
 					}
 				}
-				return res
+				return res + " " + c17AliasTok()
 			case "file":
 				if len(op) != 7 {
 					return "bad-op"
